@@ -1,5 +1,6 @@
 use super::PublishMode;
 
+#[cfg_attr(feature = "verif", derive(Clone))]
 pub enum StreamState {
     Created,
 
@@ -15,6 +16,7 @@ pub enum StreamState {
     Completed,
 }
 
+#[cfg_attr(feature = "verif", derive(Clone))]
 pub struct ActiveStream {
     pub current_state: StreamState,
 }
